@@ -66,8 +66,8 @@ theorem join_tucker_bases_spec (sub : Bool) (U1 U2 : List (Mat α)) (C1 C2 : Ful
                  else (Ten.tucker U1 C1).entry I + (Ten.tucker U2 C2).entry I :=
   (tuckerJoin_spec sub U1 U2 C1 C2 T' h1 h2 hs h).2.2 I hI
 
-/-- `TuckerTensor.from_tensor(CanonicalTensor)`: identity core, same full tensor (order ≥ 2;
-for order 1 the code raises, see `from_tensor_order1_raises`). -/
+/-- `TuckerTensor.from_tensor(CanonicalTensor)`: identity core, same full tensor, for every order ≥ 1
+(order 1 since fix 9307d65; before it the code raised, see `from_tensor_order1_raises`). -/
 theorem faithful_can_to_tucker (Xs : List (Mat α)) (T : Ten α) (hw : (Ten.can Xs).WF)
     (h : tuckerFromTensor (.can Xs) = .ok T) : T.asarray = (Ten.can Xs).asarray ∧ T.WF := by
   obtain ⟨C, rfl, hC, he⟩ := canToTucker_spec Xs T hw h
@@ -77,9 +77,26 @@ theorem faithful_can_to_tucker (Xs : List (Mat α)) (T : Ten α) (hw : (Ten.can 
     simp only [Ten.entry]
     exact he I (by have := inBox_length hI; simpa using this))
 
-/-- negation witness for the recorded finding `tucker-from-order1`: the conversion of an
-order-1 canonical tensor raises `ValueError` (np.fill_diagonal needs 2 axes). -/
-theorem from_tensor_order1_raises (X : Mat α) : tuckerFromTensor (.can [X]) = .error .value := rfl
+/-- negation witness for the repaired finding `tucker-from-order1` (fix 9307d65): as coded before,
+the conversion of every order-1 canonical tensor raised `ValueError` (np.fill_diagonal needs 2 axes). -/
+theorem from_tensor_order1_raises (X : Mat α) : tuckerFromCanAsCoded [X] = .error .value := rfl
+
+/-- negation witness for the repaired finding `squeeze-negative-axis` (fix 303a07a): as coded before,
+`CanonicalTensor.squeeze(axis=-1)` on the shape-(2,1) tensor with factors `[[1],[1]]`, `[[2]]` kept both
+axes and multiplied the singleton factor in twice (entry 4 instead of 2); the repaired code drops the axis. -/
+theorem squeeze_negative_axis_asCoded_wrong :
+    (match canSqueeze [Mat.ones 2 1, (⟨1, 1, fun _ _ => (2 : Int)⟩ : Mat Int)] (some [-1]) true with
+      | .ok (.t T) => (T.shape, T.entry [0, 0]) | _ => ([], 0)) = ([2, 1], 4) ∧
+    (match canSqueeze [Mat.ones 2 1, (⟨1, 1, fun _ _ => (2 : Int)⟩ : Mat Int)] (some [-1]) false with
+      | .ok (.t T) => (T.shape, T.entry [0]) | _ => ([], 0)) = ([2], 2) := by decide
+
+/-- negation witness for the repaired finding `pad-empty-axis` (fix 5dd70f0): as coded before, padding an
+ndarray along an empty axis raised `ValueError`; now it returns the zero tensor of the padded shape. -/
+theorem pad_empty_axis_asCoded_raises :
+    (match (Ten.full (Full.ofFn [0, 2] (fun _ => (0 : Int)))).pad [some (0, 1), some (1, 0)] true with
+      | .error e => some e | .ok _ => none) = some Err.value ∧
+    (match (Ten.full (Full.ofFn [0, 2] (fun _ => (0 : Int)))).pad [some (0, 1), some (1, 0)] false with
+      | .ok T => T.shape | .error _ => []) = [1, 3] := by decide
 
 /-- expanding an expanded tensor changes nothing (`asarray` is idempotent) -/
 theorem asarray_idem (T : Ten α) : (Ten.full T.asarray).asarray = T.asarray := by
